@@ -170,4 +170,58 @@ def r20_3(ctx: Ctx):
     return obs
 
 
-RULES = [("R20.1", r20_1, 40), ("R20.2", r20_2, 4), ("R20.3", r20_3, 5)]
+def _interpolated(fn_node):
+    out = []
+    for n in ast.walk(fn_node):
+        if isinstance(n, ast.FormattedValue):
+            out.append(n.value)
+    return out
+
+
+def r20_4(ctx: Ctx):
+    """R20.4 the report's figures are read from the tree's / deme's own accessors (metaepoch count, totals, deme count, best, per-level sums; per-deme evaluation count)."""
+    from ..core import canon, local_defs
+
+    obs = []
+    s = ctx.prog.own_method("DemeTree", "summary")
+    sn = s.self_name()
+    defs = local_defs(s)
+    vals = {canon(v, defs) for v in _interpolated(s.node)}
+    need = {
+        "metaepoch count": [f"{sn}.metaepoch_count"],
+        "total evaluations": [f"{sn}.n_evaluations"],
+        "number of demes": [f"len({sn}.all_demes)"],
+        "best fitness": [f"{sn}.best_individual.fitness"],
+        "best genome": [f"{sn}.best_individual.genome"],
+    }
+    for what, alts in need.items():
+        ok = any(a in vals for a in alts)
+        obs.append(ctx.ob("R20.4", s, s.node, status=OK if ok else VIOLATION, detail=f"summary reports the {what} from {alts[0]}" if ok else f"summary() no longer reports the {what} from `{alts[0]}` (interpolated values: {sorted(v for v in vals if len(v) < 60)[:12]})", construct=f"summary:{what}"))
+    # per-level figures: sum(d.n_evaluations for d in <level list>) and len(<same list>)
+    import re
+
+    sums = [re.fullmatch(r"sum\(\(?\[?(\w+)\.n_evaluationsfor\1in(\w+)\]?\)?\)", v) for v in vals]
+    sums = [m for m in sums if m]
+    ok = bool(sums)
+    obs.append(ctx.ob("R20.4", s, s.node, status=OK if ok else VIOLATION, detail="per-level evaluation total = sum of the level's demes' counters" if ok else "summary() no longer reports a per-level sum of deme.n_evaluations", construct="summary:level evaluations"))
+    if ok:
+        lst = sums[0].group(2)
+        ok2 = f"len({lst})" in vals
+        obs.append(ctx.ob("R20.4", s, s.node, status=OK if ok2 else VIOLATION, detail=f"per-level deme count = len({lst})" if ok2 else f"summary() does not report the level's deme count as len({lst})", construct="summary:level deme count"))
+    fd = ctx.prog.modules["pyhms.utils.print_tree"].functions["format_deme"]
+    d = fd.params()[0]
+    fdefs = local_defs(fd)
+    fvals = {canon(v, fdefs) for v in _interpolated(fd.node)}
+    # values may be pre-formatted into locals that are then interpolated: expand one level
+    expanded = set(fvals)
+    for name, ds in fdefs.items():
+        for dd in ds:
+            for v in _interpolated(dd) if not isinstance(dd, ast.AugAssign) else []:
+                expanded.add(canon(v, fdefs))
+    for what, txt in {"evaluation count": f"{d}.n_evaluations", "best fitness": f"{d}.best_individual.fitness"}.items():
+        ok = txt in expanded
+        obs.append(ctx.ob("R20.4", fd, fd.node, status=OK if ok else VIOLATION, detail=f"deme line carries the deme's {what} ({txt})" if ok else f"format_deme no longer renders the deme's {what} from `{txt}`", construct=f"format_deme:{what}"))
+    return obs
+
+
+RULES = [("R20.1", r20_1, 40), ("R20.2", r20_2, 4), ("R20.3", r20_3, 5), ("R20.4", r20_4, 9)]
